@@ -83,8 +83,11 @@ def yaml_text(rng):
         for i in range(rng.randint(1, 4)):
             parts.append(f"k{i}: {g.node(rng.randint(1, 3), want='map' if rng.random() < 0.7 else None)}")
         return "{" + ", ".join(parts) + "}\n"
-    if r < 0.95:
+    if r < 0.92:
         return g.node(2) + "\n"
+    if r < 0.96:
+        # anchors that contain an alias to themselves (yaml.v3 builds a cyclic node graph)
+        return rng.choice(["a: &x [*x]\n", "&m {k: *m}\n", "a: &m {<<: *m, b: 1}\n", "a: &x [[1, *x]]\nb: *x\n", "a: &x {b: {c: [*x]}}\n"])
     return rng.choice(["", "\n", "# only a comment\n", "~\n", "[]\n", "{}\n", "x\n", "- 1\n- 2\n"])
 
 
@@ -209,8 +212,13 @@ def evaluate(rep, cases):
         rep.case(["decode", c["format"], c["text"]], True, sample={"decode": c} if i < 2 else None)
         rep.traces += 1
         d = None
-        if any(k in g for k in ("panic", "crash", "timeout", "oom")) or not g:
-            d = f"implementation crashed / no answer: {str(g)[:120]}"
+        if any(k in g for k in ("panic", "crash", "timeout", "oom", "stack_overflow")) or not g:
+            d = f"implementation crashed / no answer: {str(g)[:160]}"
+        elif "toodeep" in json.dumps(g.get("node", "")):
+            # a cyclic node graph has no finite value: the only acceptable outcome is a reported error
+            rep.count(f"decode:{fam}:cyclic-anchor")
+            if "docs" in g:
+                d = "bkl accepts a YAML document whose anchor contains itself"
         elif "nodeerr" in g or "rawerr" in g:
             rep.count(f"decode:{fam}:third-party-parser-rejects")
             if "docs" in g:
